@@ -363,7 +363,7 @@ META = dict(
         "N=2 and each element alone in the same symbolic path and comparing."),
     bounds=dict(
         quick="V in {2,3}, width 1..4 (and the exhaustive width), max_iters 0..3, eos in {None,0,1}, finish_all_paths both, N in {None,1,2}; logits on the quarter grid in [-2,2]",
-        thorough="V in {2,3}, width up to 7 (exhaustive width when smaller), max_iters 0..2 (V=2: 0..4), hard-zero configurations, eos in {None, each token}, both finish_all_paths, N in {None,1,2}",
+        thorough="V in {2,3}, width up to 5 (V=3: up to 4; exhaustive width when smaller), max_iters 0..2 (V=2: 0..3), hard-zero configurations, eos in {None, each token}, both finish_all_paths, N in {None,1,2}",
     ),
     assumptions=[
         "language-model scores: log_softmax(logits) modelled as logits - lse(history) with lse uninterpreted, pinned to the true logsumexp for validation/replay; the library's log_softmax call is the identity on log-probabilities",
@@ -406,15 +406,15 @@ def tasks(tier):
             ts.append(task(PROP, M_, "BeamBatchH", V=V, width=W, eos=eos, finish_all=fa, max_iters=T, zeros=True))
             ts.append(task(PROP, M_, "BeamSearchH", V=V, width=W, eos=eos, finish_all=fa, max_iters=T, N=2, zeros=True))
         for V in (2, 3):
-            for T in range(0, 5 if V == 2 else 3):
+            for T in range(0, 4 if V == 2 else 3):
                 for eos in [None] + list(range(V)):
                     for fa in (False, True):
                         if eos is None and fa:
                             continue
                         nc = _ncomplete(V, eos, T)
-                        widths = sorted(set([1, 2, 3, min(nc, 6), min(nc + 1, 7)]))
+                        widths = sorted(set([1, 2, 3, min(nc, 4), min(nc + 1, 5)])) if V == 2 else sorted(set([1, 2, min(nc, 4)]))
                         for W in widths:
-                            for N in (None, 1, 2):
+                            for N in ((None, 1, 2) if V == 2 else (None, 2)):
                                 if N == 2 and V ** T * W > 200:
                                     continue
                                 ts.append(task(PROP, M_, "BeamSearchH", V=V, width=W, eos=eos, finish_all=fa, max_iters=T, N=N,
